@@ -7,11 +7,10 @@
          fs   : Seq([u, r, l])           one feature set per label: unigram ids, bigram_right ids, bigram_left ids (0 = none)
          nseed, nunk, nuser, userlabels, umap, lmap, rmap ]
    Labels 1..nseed are the seed lexicon rows, nseed+1..nseed+nunk the seed unknown entries (stored order). *)
-EXTENDS VBase
+EXTENDS VBase, VCost
 
-Abs(x) == IF x < 0 THEN 0 - x ELSE x
-Sgn(x) == IF x < 0 THEN -1 ELSE IF x > 0 THEN 1 ELSE 0
-TruncDiv(a, b) == Sgn(a) * (Abs(a) \div b)            \* b > 0; rounds toward zero like `as i16` / `as i32`
+(* Abs, Sgn, TruncDiv and the cost scaling CostOfW live in VCost (no RECURSIVE operator), where
+   VCost_proofs proves the 16-bit bound and the sign rule for ALL integer weights *)
 
 (* ---- RawModel::merge ---- *)
 UniWeight(m, f) == SumTo([k \in 1..Len(f.u) |-> IF f.u[k] <= Len(m.uwi) /\ m.uwi[f.u[k]] # 0 THEN m.W[m.uwi[f.u[k]]] ELSE 0], 1, Len(f.u))
@@ -45,7 +44,7 @@ Merged(m) ==
 (* ---- cost scaling: cost = trunc(-w * 32767 / maxabs).  With integer weights the exact
    quotient is either an integer (then the float evaluation may land one short) or at least
    1/maxabs away from one. ---- *)
-CostOf(M, w) == IF M.maxabs = 0 THEN 0 ELSE TruncDiv((0 - w) * 32767, M.maxabs)
+CostOf(M, w) == CostOfW(M.maxabs, w)
 CostOK(M, c, w) == LET q == CostOf(M, w) IN
                    \/ c = q
                    \/ (M.maxabs # 0 /\ q # 0 /\ (Abs(w) * 32767) % M.maxabs = 0 /\ c = q - Sgn(q))
